@@ -250,6 +250,10 @@ class FlowGraph:
     def _assign(self, bk, b, bi, si, s):
         dstp = s["p"]
         dsts = [self.node_of_place(bk, dstp)] + self.deref_write_targets(bk, dstp)
+        if has_deref(dstp["pr"]) and dsts[0][2] not in (None, "*"):
+            # `(*p).f = v`: the write goes through the reference p; its alias edges (back to the borrowed
+            # container) start at the whole-value node of p
+            dsts.append((bk, dstp["l"], None))
         r = s["r"]
         k = r["k"]
         srcs = []
